@@ -25,7 +25,7 @@ def shimmRaw (hash hex : Bool) (v : Nat) (op : Txt) (amt : Nat) : RawOp :=
 
 theorem arithP_shimm (g : Txt) (hash hex : Bool) (v : Nat) (op : Txt) (ah : Bool) (amt : Nat) (g2 g3 g4 rest : Txt)
     (hg : Blank g) (hg2 : Blank g2) (hg3 : Blank g3) (hg4 : Blank g4) (hop : lower op ∈ scaleOps)
-    (hf : Follow rest) :
+    (hgap : ah = false → g4 ≠ []) (hf : Follow rest) :
     immediate (g ++ (shimmText hash hex v op ah amt g2 g3 g4 ++ rest)) =
       some (.num (intDigits (shBase hash hex v)), g2 ++ 44 :: (g3 ++ (op ++ (g4 ++ (intText (shAmt ah amt) ++ rest))))) ∧
     arithP (g ++ (shimmText hash hex v op ah amt g2 g3 g4 ++ rest)) =
@@ -45,7 +45,16 @@ theorem arithP_shimm (g : Txt) (hash hex : Bool) (v : Nat) (op : Txt) (ah : Bool
   have hamt := immediate_int g4 (shAmt ah amt) rest hg4 hf
   have hamt' : optP true immediate (g4 ++ (intText (shAmt ah amt) ++ rest)) = (some (.num (showNat amt)), rest) := by
     rw [optP_some true immediate _ _ _ hamt]; simp [shAmt, optNeg, intDigits]
-  simp only [arithP, himm', hlit, shiftOp_match g3 op _ hg3 hop, hamt']
+  -- behind the operator: a blank, or the `#` of the amount (`lsl 12`, `lsl#12`; `lsl12` would be a name)
+  have hwe : ∀ c r, g4 ++ (intText (shAmt ah amt) ++ rest) = c :: r → isWordEndC c = false := by
+    intro c r h
+    cases g4 with
+    | cons b g' => simp at h; rw [← h.1]; exact blank_not_wordEnd b hg4.cons.1
+    | nil =>
+      cases ah with
+      | false => exact absurd rfl (hgap rfl)
+      | true => simp [intText, shAmt, optHash] at h; rw [← h.1]; decide
+  simp only [arithP, himm', hlit, shiftOp_match g3 op _ hg3 hop hwe, hamt']
 
 theorem shimm_head (hash hex : Bool) (v : Nat) (op : Txt) (ah : Bool) (amt : Nat) (g2 g3 g4 : Txt) :
     ∃ c t, shimmText hash hex v op ah amt g2 g3 g4 = c :: t ∧ isWs c = false ∧ isAlphaC c = false ∧
@@ -75,7 +84,7 @@ theorem shimm_head (hash hex : Bool) (v : Nat) (op : Txt) (ah : Bool) (amt : Nat
 
 /-- **shifted immediate** in any operand slot -/
 theorem goodOp_shimm (hash hex : Bool) (v : Nat) (op : Txt) (ah : Bool) (amt : Nat) (g2 g3 g4 : Txt)
-    (hg2 : Blank g2) (hg3 : Blank g3) (hg4 : Blank g4) (hop : lower op ∈ scaleOps) :
+    (hg2 : Blank g2) (hg3 : Blank g3) (hg4 : Blank g4) (hop : lower op ∈ scaleOps) (hgap : ah = false → g4 ≠ []) :
     GoodOp false true (shimmText hash hex v op ah amt g2 g3 g4) (shimmRaw hash hex v op amt) := by
   obtain ⟨c, t, hct, hws, ha, h58, h43, h123, h91, hidf⟩ := shimm_head hash hex v op ah amt g2 g3 g4
   have hlen : ∀ rest : Txt, rest.length <
@@ -83,7 +92,7 @@ theorem goodOp_shimm (hash hex : Bool) (v : Nat) (op : Txt) (ah : Bool) (amt : N
     intro rest; simp; omega
   refine ⟨?_, ?_, ?_, ?_⟩
   · intro g rest hg hf
-    obtain ⟨himm, har⟩ := arithP_shimm g hash hex v op ah amt g2 g3 g4 rest hg hg2 hg3 hg4 hop hf
+    obtain ⟨himm, har⟩ := arithP_shimm g hash hex v op ah amt g2 g3 g4 rest hg hg2 hg3 hg4 hop hgap hf
     have hreg : registerP (g ++ (shimmText hash hex v op ah amt g2 g3 g4 ++ rest)) = none := by
       rw [hct, List.cons_append]; exact registerP_none_nonalpha g c _ hg hws ha h123
     have hcond : conditionP (g ++ (shimmText hash hex v op ah amt g2 g3 g4 ++ rest)) = none := by
@@ -95,7 +104,7 @@ theorem goodOp_shimm (hash hex : Bool) (v : Nat) (op : Txt) (ah : Bool) (amt : N
       orElseR_none_left, better_none_right, better_none_left]
     rw [better_some_lt _ _ _ _ (hlen rest)]; rfl
   · intro _ g rest hg hf
-    obtain ⟨himm, har⟩ := arithP_shimm g hash hex v op ah amt g2 g3 g4 rest hg hg2 hg3 hg4 hop hf
+    obtain ⟨himm, har⟩ := arithP_shimm g hash hex v op ah amt g2 g3 g4 rest hg hg2 hg3 hg4 hop hgap hf
     have hreg : registerP (g ++ (shimmText hash hex v op ah amt g2 g3 g4 ++ rest)) = none := by
       rw [hct, List.cons_append]; exact registerP_none_nonalpha g c _ hg hws ha h123
     have hprf : prefetchP (g ++ (shimmText hash hex v op ah amt g2 g3 g4 ++ rest)) = none := by
@@ -119,14 +128,15 @@ theorem covered_shimm (last fst : Bool) (hash hex : Bool) (v : Nat) (op : Txt) (
   · intro gs hgs
     obtain ⟨g2, gs1, rfl, hg2, h1⟩ := innerOk_cons hgs
     obtain ⟨g3, gs2, rfl, hg3, h2⟩ := innerOk_cons h1
-    obtain ⟨g4, gs3, rfl, hg4, h3⟩ := innerOk_cons h2
+    obtain ⟨g4, gs3, rfl, hg4, hne, h3⟩ := innerOk_cons' h2
+    have hgap : ah = false → g4 ≠ [] := fun h => hne (by simp [amtPiece, h])
     have : gs3 = [] := h3
     subst this
     have htext : intText (shBase hash hex v) ++ joinInner [([44], 1), (op, 1), amtPiece (ah, amt)] [g2, g3, g4] =
         shimmText hash hex v op ah amt g2 g3 g4 := by
       simp [joinInner, shimmText, amtPiece, shAmt, intText, optNeg, List.append_assoc]
     rw [htext]
-    have := (goodOp_shimm hash hex v op ah amt g2 g3 g4 hg2 hg3 hg4 hop).any last
+    have := (goodOp_shimm hash hex v op ah amt g2 g3 g4 hg2 hg3 hg4 hop hgap).any last
     cases fst with
     | true => simpa using this.toFirst
     | false => simpa using this.toRest
